@@ -8,6 +8,7 @@
 //     as before, and every *Bytes read is byte-for-byte identical        -> class reopen-read:/reopen-bytes:
 //   - every read agrees with the committed chain (chain.Spec)            -> class read-mismatch:
 //   - pool: proposals and operations read back identically after reopening the TempPool -> class pool-reopen
+//
 // and the Coq model C20.Model (C19's model + transcribed load functions) is evaluated on the same
 // histories (cases_NNN.v).
 package main
@@ -46,6 +47,22 @@ func main() {
 	res := vh.NewResult("one evaluation = one read of the real Center compared with the oracle (and with itself across a reopen); a case = one history with close/reopen steps; non-trivial = history with at least one reopen after a merge that moved a suffrage proof into the permanent store")
 	cases := &vh.Cases{Import: "From MV Require Import C19.Model C20.Model.", Type: "case", CheckFn: "check", Shard: 20}
 	t0 := time.Now()
+	if o.Replay != "" {
+		var rp replay
+		if err := vh.ReadReplay(o.Replay, &rp); err != nil {
+			panic(err)
+		}
+		w := chain.NewWorld(vh.NewRand(rp.Seed), rp.Cfg.NKeys, rp.Cfg.NIn, rp.Cfg.NKn)
+		ops := chain.Rebuild(w, rp.Ops)
+		_, _, mism, err := chain.Run(w, ops, rp.Cfg, rp.Cache, nil)
+		fmt.Printf("replay: %d steps, err=%v, %d mismatching reads\n", len(ops), err, len(mism))
+		for i, m := range mism {
+			if i < 20 {
+				fmt.Printf("  step %d %s: impl=%d oracle=%d\n", m.Step, m.Read, m.Impl, m.Want)
+			}
+			res.Fail("read-mismatch:"+chain.Kind(m.Read), fmt.Sprintf("replay step %d: %s = %d, want %d", m.Step, m.Read, m.Impl, m.Want), rp)
+		}
+	}
 	r := vh.NewRand(o.Seed)
 
 	// corpus: the minimal history of the (fixed) defect -- the last suffrage proof lives in the
